@@ -40,6 +40,7 @@ class GlobalContext:
         self.triggers_delay_start: set[EvalFunc] = set()
         self.dms: set[FunctionDecoratorManager] = set()
         self.dms_delay_start: set[FunctionDecoratorManager] = set()
+        self.dm_seq: int = 0
         self.logger: logging.Logger = logging.getLogger(LOGGER_PATH + "." + name)
         self.manager = manager
         self.auto_start: bool = False
@@ -90,6 +91,9 @@ class GlobalContext:
                 if self.auto_start:
                     await dm.start()
                 else:
+                    # remember the definition order: the start pass has to follow it
+                    self.dm_seq += 1
+                    dm.seq = self.dm_seq
                     self.dms_delay_start.add(dm)
         except Exception as exc:
             ast_ctx.log_exception(exc)
@@ -116,7 +120,11 @@ class GlobalContext:
                 # start() has logged it and rolled back; nobody awaits this task
                 pass
 
-        for dm in self.dms_delay_start:
+        #
+        # start in definition order, not in the set's order: when two functions declare the same
+        # service name, the one defined last has to register last ("the most recent definition")
+        #
+        for dm in sorted(self.dms_delay_start, key=lambda dm: getattr(dm, "seq", 0)):
             Function.hass.async_create_task(start_dm(dm))
         self.dms_delay_start = set()
 
